@@ -93,3 +93,53 @@ SPECS = {
         ],
     },
 }
+
+# ---- CGMY (wave 6): cgmy.py's measure regenerated instead of hand-modelled.  Special functions are Section variables
+#   exp1 = scipy.special.exp1, Gamma = scipy.special.gamma, gammaincc / gammainc = the regularised incomplete gamma functions,
+#   quad_xx a b = scipy.integrate.quad(self._xx_levy_measure, a, b, points=points, limit=100)[0]  (the local `points` only feeds quad:
+#   it is erased to `tt`).  Private helpers that are called through `self.` become function arguments (h2inf, a2inf, inf2b, a2b) and the
+#   self-calls become `rec`; Model/CgmyGen.v ties the knots.  `0.0 ** negative` raises in Python and is Rpower 0 _ = 1 here: every theorem
+#   keeps the end points away from such calls; the option-valued model cgmy_x_neg_exec (F-C09-13) covers the raising case.
+_CG_ATTRS = {"self.parameters.c": "c", "self.parameters.g": "g", "self.parameters.m": "m", "self.parameters.y": "y"}
+_CG_KWSIG = {"self.__integrate_h_to_inf": ["alpha", "h", "u"], "self.__integrate_h_to_inf_for_xx": ["alpha", "h", "u"]}
+_R3 = "R -> R -> R -> R"
+
+SPECS["GenC09Cgmy"] = {
+    "file": "rpylib/model/levymodel/purejump/cgmy.py", "dom": "R", "consts": {"np.inf": "INF"}, "ext": "py2coq_c09",
+    "section": [("exp1", "R -> R"), ("Gamma", "R -> R"), ("gammaincc", "R -> R -> R"), ("gammainc", "R -> R -> R"), ("quad_xx", "R -> R -> R")],
+    "calls": {"scipy.special.exp1": "exp1", "scipy.special.gamma": "Gamma", "scipy.special.gammaincc": "gammaincc",
+              "scipy.special.gammainc": "gammainc", "np.power": "Rpower"},
+    "kwsig": _CG_KWSIG,
+    "funcs": [
+        {"py": "_CGMYLevyMeasure.__call__", "coq": "cgmy_density", "pyargs": ["x"],
+         "args": [("c", R), ("g", R), ("m", R), ("y", R), ("x", R)], "ret": R, "attrs": _CG_ATTRS},
+        {"py": "_CGMYLevyMeasure._xx_levy_measure", "coq": "cgmy_xx_density", "pyargs": ["x"],
+         "args": [("c", R), ("g", R), ("m", R), ("y", R), ("x", R)], "ret": R, "attrs": _CG_ATTRS},
+        {"py": "_CGMYLevyMeasure.__integrate_h_to_inf", "coq": "cgmy_h_to_inf_F", "pyargs": ["alpha", "h", "u"],
+         "args": [("rec", _R3), ("alpha", R), ("h", R), ("u", R)], "ret": R, "calls": {"self.__integrate_h_to_inf": "rec"}},
+        {"py": "_CGMYLevyMeasure.__integrate_h_to_inf_for_xx", "coq": "cgmy_h_to_inf_for_xx", "pyargs": ["alpha", "h", "u"],
+         "args": [("INF", R), ("alpha", R), ("h", R), ("u", R)], "ret": R, "join_live_only": True},
+        {"py": "_CGMYLevyMeasure.__integrate_levy_measure_a_to_inf", "coq": "cgmy_a_to_inf", "pyargs": ["a"],
+         "args": [("h2inf", _R3), ("c", R), ("m", R), ("y", R), ("a", R)], "ret": R, "attrs": _CG_ATTRS,
+         "calls": {"self.__integrate_h_to_inf": "h2inf"}},
+        {"py": "_CGMYLevyMeasure.__integrate_levy_measure_inf_to_b", "coq": "cgmy_inf_to_b", "pyargs": ["b"],
+         "args": [("h2inf", _R3), ("c", R), ("g", R), ("y", R), ("b", R)], "ret": R, "attrs": _CG_ATTRS,
+         "calls": {"self.__integrate_h_to_inf": "h2inf"}},
+        {"py": "_CGMYLevyMeasure.__integrate_levy_measure_a_to_b", "coq": "cgmy_a_to_b_F", "pyargs": ["a", "b"],
+         "args": [("rec", "R -> R -> R"), ("a2inf", "R -> R"), ("inf2b", "R -> R"), ("INF", R), ("y", R), ("a", R), ("b", R)], "ret": R,
+         "attrs": _CG_ATTRS,
+         "calls": {"self.__integrate_levy_measure_a_to_b": "rec", "self.__integrate_levy_measure_a_to_inf": "a2inf",
+                   "self.__integrate_levy_measure_inf_to_b": "inf2b"}},
+        {"py": "_CGMYLevyMeasure.integrate", "coq": "cgmy_integrate_F", "pyargs": ["a", "b"],
+         "args": [("rec", "R -> R -> R"), ("a2inf", "R -> R"), ("inf2b", "R -> R"), ("a2b", "R -> R -> R"), ("INF", R), ("y", R), ("a", R), ("b", R)],
+         "ret": R, "attrs": _CG_ATTRS,
+         "calls": {"self.integrate": "rec", "self.__integrate_levy_measure_a_to_b": "a2b", "self.__integrate_levy_measure_a_to_inf": "a2inf",
+                   "self.__integrate_levy_measure_inf_to_b": "inf2b"}},
+        {"py": "_CGMYLevyMeasure.integrate_against_x", "coq": "cgmy_integrate_x_F", "pyargs": ["a", "b"],
+         "args": [("rec", "R -> R -> R"), ("INF", R), ("c", R), ("g", R), ("m", R), ("y", R), ("a", R), ("b", R)], "ret": R, "attrs": _CG_ATTRS,
+         "calls": {"self.integrate_against_x": "rec", "self.__integrate_h_to_inf_for_xx": "(cgmy_h_to_inf_for_xx INF)"}},
+        {"py": "_CGMYLevyMeasure.integrate_against_xx", "coq": "cgmy_integrate_xx", "pyargs": ["a", "b"],
+         "args": [("c", R), ("g", R), ("m", R), ("y", R), ("a", R), ("b", R)], "ret": R, "attrs": _CG_ATTRS,
+         "subst": {"None": "tt", "[0]": "tt", "quad(self._xx_levy_measure, a, b, points=points, limit=100)[0]": "(quad_xx a b)"}},
+    ],
+}
